@@ -49,6 +49,9 @@ type Property struct {
 	Workers int
 	// ChildEnv is added to the environment of every child process.
 	ChildEnv []string
+	// ChildPerRun: every run executes in its own process (used with -race binaries:
+	// a data-race report ends the process).
+	ChildPerRun bool
 	// ProbeNames lists the rare-condition probes the workload is meant to reach,
 	// so that one stuck at zero is visible.
 	ProbeNames []string
@@ -88,6 +91,9 @@ type violRecord struct {
 }
 
 type execResult struct {
+	Faults     map[string]int `json:"faults,omitempty"`
+	Probes     map[string]int `json:"probes,omitempty"`
+	NonTrivial bool           `json:"nontrivial,omitempty"`
 	Invalid bool        `json:"invalid"`
 	Why     string      `json:"why,omitempty"`
 	Viol    []Violation `json:"viol"`
@@ -329,7 +335,31 @@ func (p *Property) worker() {
 		mu.Lock()
 		curPlan, curID, curStart = plan, id, time.Now()
 		mu.Unlock()
-		run := p.execPlan(plan, false)
+		var run *Run
+		if p.ChildPerRun {
+			run = NewRun(p.ID)
+			res, err := p.execInChild(plan, false)
+			if err != nil {
+				fmt.Fprintf(os.Stderr, "harness: child run failed: %v\n", err)
+				os.Exit(2)
+			}
+			run.Invalid, run.InvalidWhy, run.Viol, run.Events = res.Invalid, res.Why, res.Viol, res.Events
+			run.Faults, run.Probes = res.Faults, res.Probes
+			if run.Faults == nil {
+				run.Faults = map[string]int{}
+			}
+			if run.Probes == nil {
+				run.Probes = map[string]int{}
+			}
+			run.trace = strings.Fields(res.Trace)
+			run.NonTrivial = res.NonTrivial
+			run.fixedDigest = res.Digest
+			if run.fixedDigest == "" {
+				run.fixedDigest = "process-died"
+			}
+		} else {
+			run = p.execPlan(plan, false)
+		}
 		mu.Lock()
 		curID = -1
 		mu.Unlock()
@@ -403,7 +433,8 @@ func (p *Property) execChild() {
 		run = NewRun(p.ID)
 		run.Violate("watchdog", "hang", "run did not finish within %v", p.CallTimeout)
 	}
-	res := execResult{Invalid: run.Invalid, Why: run.InvalidWhy, Viol: run.Viol, Digest: run.Digest(), Events: run.Events, Trace: run.TraceString(), Lines: run.Lines}
+	res := execResult{Invalid: run.Invalid, Why: run.InvalidWhy, Viol: run.Viol, Digest: run.Digest(), Events: run.Events, Trace: run.TraceString(), Lines: run.Lines,
+		Faults: run.Faults, Probes: run.Probes, NonTrivial: run.NonTrivial}
 	b, _ := json.Marshal(res)
 	os.Stdout.Write(b)
 	os.Stdout.Write([]byte("\n"))
@@ -433,11 +464,39 @@ func (p *Property) execInChild(plan []byte, verbose bool) (*execResult, error) {
 	if line == nil || json.Unmarshal(line, &res) != nil {
 		if err != nil {
 			// the process died (fatal error, race detector exit, os.Exit in library…)
-			return &execResult{Viol: []Violation{{p.ID, "process", classifyDeath(se.String(), err), truncate(se.String(), 500)}}}, nil
+			comp, msg := "process", truncate(se.String(), 500)
+			if strings.Contains(se.String(), "WARNING: DATA RACE") {
+				comp, msg = raceSummary(se.String())
+			}
+			return &execResult{Viol: []Violation{{p.ID, comp, classifyDeath(se.String(), err), msg}}, NonTrivial: true}, nil
 		}
 		return nil, fmt.Errorf("no result from child: %s", truncate(se.String(), 300))
 	}
 	return &res, nil
+}
+
+// raceSummary extracts the first two circl frames of a ThreadSanitizer report:
+// the component is the function of the first access that lies in circl.
+func raceSummary(report string) (component, msg string) {
+	var frames []string
+	lines := strings.Split(report, "\n")
+	for i, l := range lines {
+		t := strings.TrimSpace(l)
+		if strings.HasPrefix(t, "github.com/cloudflare/circl/") && !strings.Contains(t, "verifsimrt") && i+1 < len(lines) {
+			fn := strings.TrimSuffix(t, "()")
+			fn = strings.TrimPrefix(fn, "github.com/cloudflare/circl/")
+			if len(frames) == 0 || frames[len(frames)-1] != fn {
+				frames = append(frames, fn)
+			}
+			if len(frames) >= 4 {
+				break
+			}
+		}
+	}
+	if len(frames) == 0 {
+		return "process", truncate(report, 500)
+	}
+	return "race:" + frames[0], "ThreadSanitizer: conflicting unsynchronised accesses; circl frames: " + strings.Join(frames, " | ")
 }
 
 func classifyDeath(stderr string, err error) string {
@@ -705,6 +764,9 @@ func (p *Property) check(tier string) int {
 					ch <- dres{id, "", false}
 					return
 				}
+				if res.Digest == "" {
+					res.Digest = "process-died"
+				}
 				ch <- dres{id, res.Digest, true}
 			}(id)
 		}
@@ -860,7 +922,11 @@ func (p *Property) check(tier string) int {
 		"violations":  newViol,
 	}
 	eb, _ := json.MarshalIndent(ev, "", " ")
-	if err := os.WriteFile(filepath.Join(VerifDir(), "evidence", p.ID+".json"), eb, 0o644); err != nil {
+	evName := p.ID
+	if v := os.Getenv("VERIF_EVIDENCE_NAME"); v != "" {
+		evName = v
+	}
+	if err := os.WriteFile(filepath.Join(VerifDir(), "evidence", evName+".json"), eb, 0o644); err != nil {
 		fmt.Printf("[%s] cannot write evidence: %v\n", p.ID, err)
 		return 2
 	}
